@@ -349,8 +349,22 @@ def _check_response_slots(ctx, fx, cfg):
             if rsk0 and all(x["k"] in ("agg", "ret") for x in rsk0) and any(x["k"] == "ret" for x in rsk0) and not f["def"].endswith("}"):
                 hcallers = [(g_, bi2, t2) for g_, bi2, t2 in graph.all_calls(fx, lambda x, _n=f["def"]: (x.get("resolved") or x.get("callee")) == _n)]
                 ctx.require(bool(hcallers), "R02.1", inst + ":receiver-awaited", "the response receiver is handed back by a helper nobody calls", fn=f["def"], site=t["l"])
+                # which part of what the helper returns is the receiver: the value itself, or field k of a returned tuple
+                # (`fn responding_task(msg) -> (Payload<A>, Receiver<R>)`)
+                rfield = None
+                for _tbi, _tsi, tst in list(agg_sites(b, ak="tuple")):
+                    if tst["p"] == [0]:
+                        for k_, op_ in enumerate(tst["r"]["ops"]):
+                            if op_.get("k") in ("move", "copy") and any(o_.kind == "call" and o_.site == (bi,) and o_.proj[:1] == ("f1",) for o_ in b.origins(op_)):
+                                rfield = "f%d" % k_
                 for g_, bi2, t2 in hcallers:
-                    check_receiver(ctx, fx, g_, ctx.body(fx, g_), t2["dest"][0], bi2, "%s@%s" % (g_["def"], cfg), t2["l"])
+                    gb_ = ctx.body(fx, g_)
+                    rl_ = t2["dest"][0]
+                    if rfield is not None:
+                        parts = [l_ for l_, defs_ in gb_.assigns.items() for (_x, _y, st_) in defs_ if st_["r"]["k"] == "use" and st_["r"]["o"].get("k") in ("move", "copy") and st_["r"]["o"]["p"] == [t2["dest"][0], rfield]]
+                        if len(parts) == 1:
+                            rl_ = parts[0]
+                    check_receiver(ctx, fx, g_, gb_, rl_, bi2, "%s@%s" % (g_["def"], cfg), t2["l"])
                 continue
             check_receiver(ctx, fx, f, b, rx_l, bi, inst, t["l"])
             continue
